@@ -829,6 +829,12 @@ func scanFields(buf []byte, i int) (int, []byte, error) {
 		}
 
 		if buf[i] == ',' && !quoted {
+			// every field section so far must have had its own '=': a section without one
+			// ("a=1,b,c=2") would otherwise be made up for by a later section with two,
+			// and the quote of that section's string value would not be seen as a quote
+			if equals != commas+1 {
+				return i, buf[start:i], fmt.Errorf("invalid field format")
+			}
 			commas++
 		}
 
